@@ -144,6 +144,8 @@ def run(m: Model, r: Report, tier: str) -> None:
     skips_data = len(cw_tests) == 1 and isinstance(cw_tests[0], ast.Compare) and isinstance(cw_tests[0].ops[0], ast.NotEq)
     tr.requeue_order(r, "R7", ack, rw, "_read_queue", skips_deliverable=skips_data)
     tr.requeue_before_exit(r, "R7", ack, "self._read_queue")
+    tr.requeue_on_cancellation(r, "R7", ack, "self._read_queue")
+    tr.requeue_on_cancellation(r, "R7", diag, "self._read_queue")
     tr.requeue_before_exit(r, "R7", diag, "self._read_queue")
 
     # ---------------------------------------------------------------- R8
